@@ -27,7 +27,10 @@ def run(r):
         raise core.Inconclusive("C17MC (inputs) failed: %r" % big)
     cases = sorted(m.prints + big.prints, key=lambda c: (c["fam"], c["n"]))
     # (five left-recursive levels under 256 nested parentheses need a goroutine stack beyond Go's 1 GB limit)
-    cases = [c for c in cases if not (c["fam"].startswith("prec5") and c["n"] > 300)]
+    def nesting(c):
+        return c["n"] // 2 if c["fam"].endswith("/good") else c["n"] - 1
+    cases = [c for c in cases if not (c["fam"].startswith("prec5") and nesting(c) > 150)]
+    cases = [c for c in cases if not (c["fam"].split("/")[0] in ("arithnest", "brackets", "brackets2") and nesting(c) > 300)]
     # one cold process per family and variant: the measured grammar is the first thing the library does in its process
     from concurrent.futures import ThreadPoolExecutor
     groups = {}
